@@ -51,6 +51,9 @@ def shards(tier, seed):
     out = []
     for ln, nn in A.combos(lints1=True):
         out.append({"ln": ln, "nn": nn, "dev": 2 if tier == "quick" else 3, "seed": 111 + seed})
+    for ln in A.SCALED_LPS:          # per-arm standardisation: scalers see the containers too
+        for nn in ("none", "rad"):
+            out.append({"ln": ln, "nn": nn, "dev": 2 if tier == "quick" else 3, "seed": 111 + seed})
     return A.heavy_first(out)
 
 
@@ -377,7 +380,7 @@ def assignments(dev, cf):
 
 
 def judge(ln, nn, seed, assign, base_out=None, labels="int"):
-    tol = 1e-9 if ln in A.LINEAR_LPS else 0.0
+    tol = 1e-9 if ln in A.LINEAR_LPS + A.SCALED_LPS else 0.0
     if base_out is None:
         base_out, _ = scenario(ln, nn, seed, dict(baseline_assign(), _float=assign.get("_float", False)), labels)
     try:
@@ -459,11 +462,11 @@ def run_shard(shard):
             acc.traces += 1
             acc.case((ln, nn, "narrow", label))
             acc.state((ln, nn, "narrow", label))
-            t = 1e-9 if ln in A.LINEAR_LPS else 1e-12
+            t = 1e-9 if ln in A.LINEAR_LPS + A.SCALED_LPS else 1e-12
             if not ops.same(got, ref, rtol=t, atol=t):
                 acc.violation("%s/%s rewards as %s array" % (ln, nn, label), {"ln": ln, "nn": nn, "seed": seed, "narrow": label},
                               "rewards as %s array give %r, as a list %r" % (label, got, ref))
-    tol = 1e-9 if ln in A.LINEAR_LPS else 0.0
+    tol = 1e-9 if ln in A.LINEAR_LPS + A.SCALED_LPS else 0.0
     for label, run in series_scenarios(ln, nn, seed):
         try:
             a, b = run(True), run(False)
@@ -483,7 +486,7 @@ def run_shard(shard):
 def replay(w):
     if "narrow" in w:
         runs = dict(narrow_int_scenarios(w["ln"], w["nn"], w["seed"]))
-        t = 1e-9 if w["ln"] in A.LINEAR_LPS else 1e-12
+        t = 1e-9 if w["ln"] in A.LINEAR_LPS + A.SCALED_LPS else 1e-12
         try:
             a, b = runs[w["narrow"]](), runs["list"]()
         except Exception as e:                                # noqa: BLE001
@@ -492,7 +495,7 @@ def replay(w):
     if "series" in w:
         for label, run in series_scenarios(w["ln"], w["nn"], w["seed"]):
             if label == w["series"]:
-                tol = 1e-9 if w["ln"] in A.LINEAR_LPS else 0.0
+                tol = 1e-9 if w["ln"] in A.LINEAR_LPS + A.SCALED_LPS else 0.0
                 try:
                     a, b = run(True), run(False)
                 except Exception as e:                        # noqa: BLE001
